@@ -327,7 +327,7 @@ func runHarness(prog *ssa.Program, models map[string]*ssa.Function, hp *ssa.Pack
 	st := &State{heap: map[int]Value{}, globals: map[*ssa.Global]int{}, onceRan: map[string]bool{}, covered: map[string]bool{}, locks: map[string]int{}}
 	w0 := &W{e: e, solver: NewSolver()}
 	e.inInit = true
-	w0.runInit(st, hp)
+	w0.runInit(st, hp.Func("init"), false)
 	e.inInit = false
 	w0.solver.Close()
 	initInstrs := st.steps
